@@ -159,6 +159,8 @@ fn generate_module_token_stream_inner(
 
     // We need to qualify the query with the path to the crate it is part of
     let query = crate::query::resolve(schema, query_document)?;
+    #[cfg(graphql_client_verif)]
+    verif::emit("Resolved", "-", std::path::Path::new(""));
 
     // Determine which operation we are generating code for. This will be used in operationName.
     let operations = options
@@ -179,6 +181,19 @@ fn generate_module_token_stream_inner(
         }
     };
 
+    #[cfg(graphql_client_verif)]
+    verif::emit(
+        "Selected",
+        "-",
+        std::path::Path::new(
+            &operations
+                .iter()
+                .map(|operation| operation.1.name.as_str())
+                .collect::<Vec<_>>()
+                .join(","),
+        ),
+    );
+
     // The generated modules.
     let mut modules = Vec::with_capacity(operations.len());
 
@@ -191,6 +206,8 @@ fn generate_module_token_stream_inner(
             options: &options,
         }
         .to_token_stream()?;
+        #[cfg(graphql_client_verif)]
+        verif::emit("Rendered", "-", std::path::Path::new(&operation.1.name));
         modules.push(generated);
     }
 
